@@ -217,6 +217,14 @@ class StmtMixin:
                 return self.apply_store_rule(r, (o, attr), v, st, node)
         raise Unsupported("attribute store %s on %r (line %s)" % (attr, o, node.lineno))
 
+    def apply_store_rule(self, rule, target, v, st, node):
+        self.note('rule', (node.lineno, 'store %s' % (target,), getattr(rule, '__name__', str(rule))))
+        if callable(rule):
+            return rule(self, st, target, v, node)
+        if rule == 'NOEFFECT':
+            return self.ok(st)
+        raise Unsupported("store rule %r" % (rule,))
+
     def store_index(self, o, i, v, st, node):
         if isinstance(o, VRef):
             h = st.heap[o.rid]
@@ -693,6 +701,7 @@ class StmtMixin:
             for n in ast.walk(node.target):
                 if isinstance(n, ast.Name):
                     names.discard(n.id)
+        fresh_rids = set()
         for name in sorted(names):
             v = st.lookup(name)
             if v is None or isinstance(v, (VFunc, VClass)):
@@ -700,7 +709,10 @@ class StmtMixin:
             fid = st.fid
             while fid is not None and name not in st.frames[fid]:
                 fid = st.frames[fid].get('__parent__')
-            st.frames[fid][name] = self.havoc_val(v, name, st)
+            nv = self.havoc_val(v, name, st)
+            st.frames[fid][name] = nv
+            if isinstance(nv, VRef):
+                fresh_rids.add(nv.rid)
         for rid in sorted(rids):
             self.havoc_heap(rid, st)
         for rid, attr in sorted(fields):
@@ -708,6 +720,8 @@ class StmtMixin:
             if attr in h.fields:
                 f = dict(h.fields)
                 f[attr] = self.havoc_val(h.fields[attr], attr, st)
+                if isinstance(f[attr], VRef):
+                    fresh_rids.add(f[attr].rid)
                 p = dict(h.present)
                 if attr in p:
                     p[attr] = z3.Bool(fresh_name('present_' + attr))
@@ -715,6 +729,7 @@ class StmtMixin:
         for g in sorted(ghosts):
             if g in st.ghost:
                 st.ghost[g] = self.havoc_val(st.ghost[g], 'G_' + g, st)
+        rids |= fresh_rids
         return (names, rids, fields, ghosts)
 
     def frame_check(self, head, end, mods, node):
@@ -732,7 +747,11 @@ class StmtMixin:
                     if h2.present.get(a) is not v and (rid, a) not in fields:
                         raise Unsupported("loop at line %s changes presence of %s outside its havoc set" % (node.lineno, a))
             elif rid not in rids:
-                raise Unsupported("loop at line %s mutates a container outside its havoc set (aliasing?)" % node.lineno)
+                owner = [(r, a) for r, hh in head.heap.items() if isinstance(hh, HRec)
+                         for a, v in hh.fields.items() if isinstance(v, VRef) and v.rid == rid]
+                names_ = [n for fr in head.frames.values() for n, v in fr.items() if isinstance(v, VRef) and v.rid == rid]
+                raise Unsupported("loop at line %s mutates a container outside its havoc set (aliasing?): fields %s names %s rid %s havoc %s"
+                                  % (node.lineno, owner, names_, rid, sorted(rids)))
         for fid, fr in head.frames.items():
             fr2 = end.frames.get(fid, {})
             for name, v in fr.items():
